@@ -76,7 +76,12 @@ func validReply(cmd, name, variant string) string {
 		case variant == "wrongNameCase":
 			m["name"] = strings.ToUpper(name[:1]) + name[1:] // differs from the file name by letter case only
 		case variant == "wrongContract":
-			m["supportedContractVersions"] = []string{"2.0"}
+			// another contract version than "1.0": a different one, or a near miss of it (same major, other spelling, padding)
+			salt := len(cmd)
+			for _, ch := range name {
+				salt += int(ch)
+			}
+			m["supportedContractVersions"] = [][]string{{"2.0"}, {"1.1"}, {"1"}, {"1.00"}, {"1.0.1"}, {"01.0"}, {" 1.0"}, {"1.0 "}, {"v1.0"}, {"2.0", "1.1", "0.1"}}[salt%10]
 		}
 		b, _ := json.Marshal(m)
 		return string(b)
@@ -111,11 +116,27 @@ func procScript(in PPIn, name, fifo string) string {
 		if body != "" {
 			body = "," + body
 		}
-		fmt.Fprintf(&sb, "echo '{\"errorCode\":%q%s}' >&2\n", code, body)
+		// ... printed on one line, or indented over several lines, or with blank lines around it: the same JSON value
+		switch (len(name) + in.Exit + len(code)) % 3 {
+		case 0:
+			fmt.Fprintf(&sb, "echo '{\"errorCode\":%q%s}' >&2\n", code, body)
+		case 1:
+			fmt.Fprintf(&sb, "printf '{\\n  \"errorCode\": %%s%%s\\n}\\n' %s %s >&2\n", shellQuote(fmt.Sprintf("%q", code)), shellQuote(strings.ReplaceAll(body, ",", ",\n  ")))
+		default:
+			fmt.Fprintf(&sb, "printf '\\n\\n{\"errorCode\":%%s%%s}\\n\\n' %s %s >&2\n", shellQuote(fmt.Sprintf("%q", code)), shellQuote(body))
+		}
 	case in.Stderr == "incompleteJSON":
 		sb.WriteString("echo '{}' >&2\n")
 	case in.Stderr == "nonJSON":
-		sb.WriteString("echo 'panic: something went wrong in the plugin' >&2\n")
+		// plain text; text followed by a line that is a structured error; two structured errors - none of them is ONE JSON value
+		switch (len(name) + in.Exit + len(in.Cmd)) % 3 {
+		case 0:
+			sb.WriteString("echo 'panic: something went wrong in the plugin' >&2\n")
+		case 1:
+			sb.WriteString("echo 'time=now level=debug msg=starting' >&2\necho '{\"errorCode\":\"THROTTLED\",\"errorMessage\":\"slow down\"}' >&2\n")
+		default:
+			sb.WriteString("echo '{\"errorCode\":\"ERROR\",\"errorMessage\":\"first\"}' >&2\necho '{\"errorCode\":\"TIMEOUT\",\"errorMessage\":\"second\"}' >&2\n")
+		}
 	case in.Stderr == "huge":
 		fmt.Fprintf(&sb, "head -c %d /dev/zero | tr '\\000' 'e' >&2\n", hugeBytes)
 	}
